@@ -96,13 +96,13 @@ impl WhereClauseBuilder {
     }
 
     pub fn push_bounds(&mut self, bounds: &Bounds) -> bool {
-        self.preds.extend(bounds.pred.iter().cloned());
-        self.types.extend(bounds.ty.iter().cloned());
+        self.preds.extend(bounds.pred.iter().map(to_bounded_pred));
+        self.types.extend(bounds.ty.iter().map(to_bounded_type));
         bounds.default
     }
     pub fn push_bounds_for_field(&mut self, field: &Field) {
         if self.gps.contains_in_type(&field.ty) {
-            self.types.push(field.ty.clone());
+            self.types.push(to_bounded_type(&field.ty));
         }
     }
 
@@ -120,4 +120,29 @@ impl WhereClauseBuilder {
             quote!(where #(#ws,)*)
         }
     }
+}
+
+/// Returns `ty`, parenthesized if it cannot open a where clause: rustc reads
+/// `where <T>::Assoc: Trait` as generic parameters on the where clause
+/// ("reserved for future use"), so `<T>::Assoc` is written `(<T>::Assoc)`.
+fn to_bounded_type(ty: &Type) -> Type {
+    fn need_paren(ty: &Type) -> bool {
+        match ty {
+            Type::Path(t) => matches!(&t.qself, Some(q) if q.as_token.is_none()),
+            Type::Group(t) => need_paren(&t.elem),
+            _ => false,
+        }
+    }
+    if need_paren(ty) {
+        syn::parse_quote!((#ty))
+    } else {
+        ty.clone()
+    }
+}
+fn to_bounded_pred(pred: &WherePredicate) -> WherePredicate {
+    let mut pred = pred.clone();
+    if let WherePredicate::Type(p) = &mut pred {
+        p.bounded_ty = to_bounded_type(&p.bounded_ty);
+    }
+    pred
 }
